@@ -125,6 +125,15 @@ CHECKS = {
             "Mixin schemas that reference predefined global states (Start, Exception, ...) they do not define are explored merged with those "
             "states, as their documentation requires. Unimportable schemas are listed as skipped.",
             "bounded exhaustive state-space enumeration with the real machine as transition function + rapid random walks", "DESIGN.md §5 C19"),
+    "C10": ("exploration",
+            "Exhaustive enumeration, in-package and without a network, of every (state count 1..4 quick / 1..6 thorough, tracked subset, schema-synced "
+            "or schema-less index space, deep or shallow clocks, base snapshot A, per-state delta vector in {0..4}^n, queue/machine tick deltas): "
+            "the server's real calcUpdate output is applied by a real Client's clockUpdate to a mirror holding A; the mirror must equal B (parity "
+            "for shallow), the checksum must accept, and the same message on a mirror drifted by 1/7/255 must be rejected and leave it untouched; "
+            "plus rapid-sampled deltas at the uint8/uint16/uint32 field boundaries and chains of per-mutation updates.",
+            "The harness builds the encoder's input snapshots the way the source tracer does (stated in the evidence); that derivation is covered "
+            "end to end by C09. One known finding: field-width wrap (C10-field-width-wrap).",
+            "bounded exhaustive enumeration + property-based testing (rapid): encode/decode round-trip and checksum rejection", "DESIGN.md §5 C10"),
 }
 
 NOT_YET = "check not built yet in this session (planned, see DESIGN.md §9)"
